@@ -108,18 +108,29 @@ class Cluster:
         return res
 
     def install(self):
-        import panqec.cli as pcli
-        self._saved = (pcli.multiprocessing, pcli.glob, pcli.tqdm)
+        """The seams are found by *object identity* in the namespaces of the
+        package under test, so `import multiprocessing`, `from
+        multiprocessing import Process`, `import glob` / `from glob import
+        glob`, `from tqdm import tqdm` ... are all covered."""
+        import glob as _globmod
+        import multiprocessing as _mp
+        import tqdm as _tqdmmod
         ProcessShim.cluster = self
-        pcli.multiprocessing = MultiprocessingShim(self.n_cpu)
-        pcli.glob = self._glob
-        pcli.tqdm = seams.sim_progress
+        shim = MultiprocessingShim(self.n_cpu)
+        self._undo = []
+        for real, repl in (
+                (_mp, shim), (_mp.Process, ProcessShim),
+                (_mp.cpu_count, shim.cpu_count),
+                (_globmod.glob, self._glob), (_globmod.iglob, self._glob),
+                (_tqdmmod.tqdm, seams.sim_progress)):
+            self._undo.append((seams.patch_everywhere(real, repl), real))
+        import os as _os
+        self._real_cpu = _os.cpu_count
 
     def uninstall(self):
-        import panqec.cli as pcli
-        if self._saved:
-            pcli.multiprocessing, pcli.glob, pcli.tqdm = self._saved
-            self._saved = None
+        for done, real in getattr(self, '_undo', []):
+            seams.unpatch(done, real)
+        self._undo = []
         ProcessShim.cluster = None
 
     def node_call(self, data_dir, trials, n_nodes, job_idx, n_cores,
